@@ -8,7 +8,7 @@ name=$(basename $(dirname "$patch"))
 sb=$(mktemp -d /tmp/xvsb.XXXXXX)
 mkdir -p /verif/work/sandbox
 git -C /repo worktree add -q --detach $sb/repo HEAD || exit 2
-( cd $sb/repo && git apply "$patch" ) || { echo "$name: patch does not apply"; git -C /repo worktree remove --force $sb/repo; rm -rf $sb; exit 2; }
+( cd $sb/repo && { git apply "$patch" 2>/dev/null || git apply --3way "$patch"; } ) || { echo "$name: patch does not apply"; git -C /repo worktree remove --force $sb/repo; rm -rf $sb; exit 2; }
 rsync -a --exclude work --exclude harness/target --exclude replays --exclude .git --exclude __pycache__ ${XV_VERIF_SRC:-/verif}/ $sb/verif/
 sed -i "s#path = \"/repo\"#path = \"$sb/repo\"#" $sb/verif/harness/Cargo.toml
 cd $sb/verif
